@@ -365,6 +365,10 @@ def stepOp (j : Json) : M Json := do
     pure okJson
   | "dg_index" => do
     let gid ← getVar j "g"
+    if (← getDgO gid).entries.isEmpty then
+      -- no member is indexed: the index object is never looked at
+      bindVar (← reqM (getNat? j "dst")) (← newObj (.dg { entries := [], name := "" }))
+      return okJson
     let ix ← match getNat? j "ixvar" with
       | some v => do
         let iid ← lookupVar v
@@ -386,7 +390,8 @@ def stepOp (j : Json) : M Json := do
           match ← getObj id with
           | .arr _ => do
             let a ← readArr id
-            if a.shape.length != 1 then fail .badOp
+            -- np.argsort of a 0-d array answers [0]
+            if a.shape.length > 1 then fail .badOp
             pure ((argsort a.data).map fun (n : Nat) => (n : Int))
           | _ => fail .typeErr
       | none => reqM (getInts? j "perm")
